@@ -292,6 +292,6 @@ EMPTY_REF and the parent link written on every path of the allocating function, 
 filler node has EMPTY_REF there and every release of a slot is preceded by a reset of that link [FRESH]; no branch tests the root's own parent link, which the link discipline keeps
 at EMPTY_REF (a guard mistyped that way disables what it guards, identically in all copies) [ROOTTEST]. NOT decided: that the consistent, symmetric algorithm restores
 the colour invariants (needs a proof or exploration of tree shapes: another technique family); a change made
-identically in all copies and both mirrors is invisible to TWIN; the height bound is a consequence and assumed. In the removal repair, after the examined node's sibling is painted red, every path either paints a red parent black or continues the repair with the parent as the examined node (recursive call or next round of the loop): the missing black is made up for or handed up, never dropped [DEFICIT]. In the insert repair, after the grandparent is painted red, every path either establishes that it has no parent, a black parent, or is the root, or continues the repair with it [REDRED].""",
+identically in all copies and both mirrors is invisible to TWIN; the height bound is a consequence and assumed. In the removal repair, after the examined node's sibling is painted red, every path either paints a red parent black or continues the repair with the parent as the examined node (recursive call or next round of the loop): the missing black is made up for or handed up, never dropped [DEFICIT]. In the insert repair, after the grandparent is painted red, every path either establishes that it has no parent, a black parent, or is the root, or continues the repair with it [REDRED]. The temporary sentinel stands for a removed black leaf: the functions that may be handed it never read the colour of their examined node (or the sentinel is written Black), and the colour that decides whether a black node went missing is the colour of the node actually spliced out (chosen side by side with the released index) [DEFICIT]. Search order: a key is written into the arena only whole into a fresh slot at insertion, or as the whole payload of the in-order neighbour into the removed entry's slot - never into a node that stays where it is [ENTITY].""",
      ["the shared algorithm is the textbook red-black repair (not re-verified)"],
-     {'TWIN': 50, 'LINKPAIR': 30, 'NILSTATE': 3, 'COLOR': 3, 'POOL': 3, 'CLIMB': 2, 'FRESH': 6, 'ROOTTEST': 6, 'DEFICIT': 3, 'REDRED': 3})
+     {'TWIN': 50, 'LINKPAIR': 30, 'NILSTATE': 3, 'COLOR': 3, 'POOL': 3, 'CLIMB': 2, 'FRESH': 6, 'ROOTTEST': 6, 'DEFICIT': 9, 'REDRED': 3, 'ENTITY': 6})
